@@ -15,17 +15,40 @@
    that consumes it; [p_cons] is the log of (index of the nil-return step, token = (producing step, index of the
    producing call's ECall event, its operation)).
 
-   FULL STATEMENT (the part marked [#] is NOT proved here): every nil return of Wait consumes a token [#]; the tokens
-   consumed by different nil returns are different; every consumed token was produced by a step of a Signal or
-   Broadcast call whose invocation precedes that step, which precedes the nil return, in the schedule.
-   ([#] = "the log has one entry per nil return", i.e. Z.of_nat (length (p_cons pr)) = g_nil c: it holds on the
-   Examples by computation; in general it needs the link "a thread at a token-holding program counter holds a
-   token in the observer's table", which is not proved.  Independently of this file, C13_cond.v proves that a nil
-   return is reached only through `case <-ch:` (nil_return_consumed_a_token) and C13_count.v that
-   #nil <= #Signal calls + #waiters released by Broadcasts for all executions.) *)
-From Ekit Require Import Common Conc CondModel CondProof CondProofNodes CondProof2 CondProof3 CondProv.
+   STATEMENT PROVED (for every execution, copied Cond or not): every nil return of Wait consumes exactly one token (the
+   log has one entry per nil-return step, in order, and its length is g_nil); the tokens consumed by different nil
+   returns are different; every consumed token was produced by a step of a Signal or Broadcast call whose invocation
+   precedes that step, which precedes the nil return, in the schedule.  The link between the observer's tables and the
+   model ([observer_tables_match_program_counters]: a thread at a token-holding program counter holds a token in the
+   observer's table, a channel with a token has one in the observer's channel table) is proof/CondProvLink.v. *)
+From Ekit Require Import Common Conc CondModel CondProof CondProofNodes CondProof2 CondProof3 CondProv CondProvLink.
 Open Scope nat_scope.
 
+(* [nilrets c i evs] = the indices (counted from i) of the steps of the execution of evs from c whose observations
+   contain a nil return of Wait (definition in proof/CondProvLink.v, independent of the observer) *)
+Theorem consumed_tokens_distinct_and_produced_before : forall copied evs c pr,
+  runp (cond_init copied) p0 evs = Some (c, pr) ->
+  (* one log entry per nil return, in the order of the returns *)
+  map fst (p_cons pr) = rev (nilrets (cond_init copied) 0 evs) /\
+  Z.of_nat (length (p_cons pr)) = g_nil c /\
+  (* distinct tokens *)
+  NoDup (map (fun x => tm (snd x)) (p_cons pr)) /\
+  (* produced by a step of a Signal / Broadcast call: invocation k < producing step m < nil return r *)
+  forall r m k op, In (r, (m, k, op)) (p_cons pr) ->
+    k < m /\ m < r /\ is_notify op = true /\
+    exists t' o t o', nth_error evs k = Some (ECall t' op) /\ nth_error evs m = Some (EStep t' o) /\
+                      nth_error evs r = Some (EStep t o').
+Proof. exact provenance_full_lemma. Qed.
+Print Assumptions consumed_tokens_distinct_and_produced_before.
+
+Theorem observer_tables_match_program_counters : forall copied evs c pr,
+  runp (cond_init copied) p0 evs = Some (c, pr) ->
+  (forall t p, lookup t (c_thr c) = Some p -> holds_tok p = true -> exists tk, lookup t (p_hold pr) = Some tk) /\
+  (forall n, In n (c_tok c) -> exists tk, lookup n (p_chan pr) = Some tk).
+Proof. exact link_lemma. Qed.
+Print Assumptions observer_tables_match_program_counters.
+
+(* the earlier, weaker form (kept for reference; implied by the theorem above) *)
 Theorem consumed_tokens_distinct_and_produced_before_partial : forall copied evs c pr,
   runp (cond_init copied) p0 evs = Some (c, pr) ->
   NoDup (map (fun x => tm (snd x)) (p_cons pr)) /\
@@ -63,6 +86,9 @@ Proof. vm_compute. reflexivity. Qed.
 
 (* expiry racing the Signal's send (C13_cond.sched_race): the forwarded token of the Signal call at index 59 is the
    one waiter 2 consumes *)
+Example late_arrival_nilrets : nilrets (cond_init false) 0 sched_late = [140; 144].
+Proof. vm_compute. reflexivity. Qed.
+
 Example race_log :
   option_map (fun cp => (p_cons (snd cp), g_nil (fst cp)))
     (runp (cond_init false) p0
